@@ -17,7 +17,9 @@ RULE = ("Hypothesis draws a square operator (real non-symmetric with conjugate p
         "first min(m'+1, g) columns orthonormal (columns past a breakdown are not constrained); for m > n the result equals "
         "the m = n result in the leading block and is exactly zero elsewhere; arnoldi_eigs with max_iters >= n returns the "
         "spectrum of M as a multiset (no spurious values); batched == per column. Non-trivial: m < n with non-normal A, "
-        "m > n, breakdown, complex, batched.")
+        "m > n, breakdown, complex, batched. The operator object is Dense, or (2 in 7) Identity / Transpose(Identity) / "
+        "Product(I,I) / Kronecker(I,I) / ScalarMul / Diagonal / Sum(I, Dense) / Product(I, Dense) / Permutation; one case in "
+        "six uses tol = 0.")
 ASSUMPTIONS = [
     "'m+1 orthonormal columns' is read as: the first min(m'+1, g) columns are orthonormal - no implementation can extend an exhausted Krylov space canonically",
     "tolerances relative to max(1e-10, 10 tol) * max(1,|M|) because cola clips normalisations at tol/2",
@@ -35,7 +37,11 @@ def cases(draw, tier):
             "seed": draw(st.integers(0, 10**6)), "nrhs": 0, "rhs": draw(st.sampled_from(["generic", "generic", "grade"])), "g": g,
             "x0": "zero", "m": draw(st.integers(1, n + 8)), "tol_exp": draw(st.sampled_from([-12, -10, -8, -6])),
             "batch": draw(st.integers(2, 3)), "shift_exp": draw(st.sampled_from([0, 0, 0, 3, 6, 8])), "cstart": draw(st.integers(1, 5)) == 1,
-            "single": draw(st.integers(1, 6)) == 1}
+            "single": draw(st.integers(1, 6)) == 1,
+            # the operator object: mostly Dense, else a structured operator of the same kind of matrix (Identity-like
+            # operators hand their argument back, Diagonal / ScalarMul / Sum / Product have their own product code)
+            "op": draw(st.sampled_from(["dense"] * 5 + ["eye", "eye_T", "eye_prod", "eye_kron", "smul", "diag", "sum_eye", "prod_eye", "perm"])),
+            "tol_zero": draw(st.integers(1, 6)) == 1}
     if sub == "padded":
         case["m"] = draw(st.integers(n + 1, n + 8))
     if sub == "eigs":
@@ -90,6 +96,38 @@ def verify(out, sub, site, M, v, Qd, Hd, m, tol, g):
     return True
 
 
+def make_operator(kind, M, seed):
+    """(cola operator, its matrix): Dense(M), or a structured operator of M's size and dtype (M is then replaced)."""
+    import cola
+    ops = cola.ops
+    n, dt = M.shape[0], M.dtype
+    eye = np.eye(n, dtype=dt)
+    I = ops.Identity((n, n), dt)
+    if kind == "eye":
+        return I, eye
+    if kind == "eye_T":
+        return ops.Transpose(I), eye
+    if kind == "eye_prod":
+        return ops.Product(I, I), eye
+    if kind == "eye_kron" and n >= 4 and any(n % d == 0 for d in range(2, n)):
+        a = [d for d in range(2, n) if n % d == 0][0]
+        return ops.Kronecker(ops.Identity((a, a), dt), ops.Identity((n // a, n // a), dt)), eye
+    if kind == "smul":
+        return ops.ScalarMul(2.5, (n, n), dtype=dt), 2.5 * eye
+    if kind == "diag":
+        d = np.diag(M).copy()
+        return ops.Diagonal(d), np.diag(d)
+    if kind == "sum_eye":
+        return ops.Sum(I, ops.Dense(M)), eye + M
+    if kind == "prod_eye":
+        return ops.Product(I, ops.Dense(M)), M
+    if kind == "perm":
+        p = np.random.default_rng(seed + 3).permutation(n)
+        P = ops.Permutation(p, dtype=dt)
+        return P, np.asarray(P.to_dense())
+    return ops.Dense(M), M
+
+
 def check(case, out):
     import cola
     from cola.linalg.decompositions.arnoldi import arnoldi, arnoldi_eigs
@@ -108,13 +146,17 @@ def check(case, out):
         B = B.astype(np.complex64 if np.iscomplexobj(B) else np.float32)
         out.label("single_precision")
     n, m = case["n"], case["m"]
-    tol = 10.0 ** case["tol_exp"]
+    tol = 0.0 if case.get("tol_zero") else 10.0 ** case["tol_exp"]
     vs = [B] if B.ndim == 1 else [B[:, j] for j in range(B.shape[1])]
     v = vs[0]
-    A = cola.ops.Dense(M)
+    A, M = make_operator(case.get("op", "dense"), M, case["seed"])
+    out.label("op:" + case.get("op", "dense"), "tol:0" if tol == 0 else "tol>0")
     scale = max(1.0, np.abs(M).max())
     g_tight = KR.krylov_basis(lambda q: M @ q, v, n + 1, tol=1e-11).shape[1]
-    g = KR.krylov_basis(lambda q: M @ q, v, n + 1, tol=max(1e-5, 100 * tol)).shape[1]
+    # a breakdown is recognisable only down to the working precision: in single precision the residual of an exhausted
+    # Krylov space is ~1e-4 relative, so the grade is judged at 1e4 eps (1.2e-3 in float32, 2e-12 in float64)
+    gtol = max(1e-5, 100 * tol, 1e4 * float(np.finfo(M.dtype).eps))
+    g = KR.krylov_basis(lambda q: M @ q, v, n + 1, tol=gtol).shape[1]
     out.label("sub:" + sub, "kind:" + case["kind"], "start:" + case["rhs"], "m:" + ("<n" if m < n else "=n" if m == n else ">n"),
               "breakdown" if g < n else "full_grade")
     site = f"arnoldi:{case['rhs']}:{'m>n' if m > n else 'm<=n'}"
@@ -194,12 +236,17 @@ def check(case, out):
         except Exception as e:
             out.fail(sub, site, "batched_to_dense:" + oracle.exc_man(e), e)
             return
-        grades = [KR.krylov_basis(lambda q: M @ q, vv, n + 1, tol=max(1e-5, 100 * tol)).shape[1] for vv in vs]
+        grades = [KR.krylov_basis(lambda q: M @ q, vv, n + 1, tol=gtol).shape[1] for vv in vs]
         if not (np.all(np.isfinite(Qd)) and np.all(np.isfinite(Hd))):
             out.fail(sub, site, "nonfinite", "batched")
             return
         if min(grades) < min(m, n):
             out.label("batched:some_break_down")
+            # every member is its own factorisation: relation, Hessenberg form, first column, orthonormality up to its grade
+            for j, vv in enumerate(vs):
+                gj = min(grades[j], KR.krylov_basis(lambda q: M @ q, vv, n + 1, tol=1e-11).shape[1])
+                if not verify(out, sub, site + f":member", M, vv, Qd[j], Hd[j], m, tol, gj) or out.failures:
+                    return
             return
         for j, vv in enumerate(vs):
             Qj, Hj, _ = arnoldi(A, vv.copy(), max_iters=m, tol=tol)
